@@ -344,7 +344,7 @@ def main():
     # ---- 4b. Tier-1 hypothesis: the Two-Way certificate, evaluated by the model for every needle of this run
     cert_stats = {}
     if P.get("cert") and okm:
-        needles = sorted(set(kv.get("x", "") for kv in (vlib.parse_case(l)[1] for l in cases) if len(kv.get("x", "")) >= 2))
+        needles = sorted(set(kv.get("x", "") for kv in (vlib.parse_case(l)[1] for l in cases) if 2 <= len(kv.get("x", "")) <= 700))   # the certificate is cubic in |x|: cross-check needles up to 350 bytes
         cpath = os.path.join(vlib.CASES, f"{pid}.{os.getpid()}.cert")
         vlib.write_cases(cpath, [f"twcert x={x}" for x in needles])
         try:
@@ -365,11 +365,18 @@ def main():
         rng2 = random.Random(seed + 1)
         more = P["escalate_gen"](rng2) if P.get("escalate_gen") else P["gen"]("thorough", rng2)
         more = more[: P.get("escalate_max", 60000)]
-        outs2 = run_cases(P, more, builds[:1], want_model=False)
-        bname, exe, env = builds[0]
+        eb = [b for b in builds if b[0] == P.get("escalate_build")] or builds[:1]
+        bname, exe, env = eb[0]
+        seq = P.get("escalate_sequential", False)
+        outs2 = None if seq else run_cases(P, more, eb[:1], want_model=False)
         for i, line in enumerate(more):
             op, kv = vlib.parse_case(line)
-            res, tr = outs2[bname][i]
+            if seq:
+                # expensive cases, cheapest first: run one at a time and stop at the first failing input
+                one = run_cases(P, [line], eb[:1], want_model=False)
+                res, tr = one[bname][0]
+            else:
+                res, tr = outs2[bname][i]
             t, flags = vlib.split_trace(tr)
             stats["evaluations"] += 1
             try:
